@@ -230,12 +230,11 @@ func (r *RPCReadResponse) DecodeFrom(d *types.Decoder) {
 	//
 	// NOTE: for maximum efficiency, we should be doing this for every slice,
 	// but in most cases the extra performance isn't worth the aliasing issues.
-	dataLen := int(d.ReadUint64())
-	if cap(r.Data) < dataLen {
-		r.Data = make([]byte, dataLen)
-	}
-	r.Data = r.Data[:dataLen]
-	d.Read(r.Data)
+	//
+	// ReadBytes checks the length prefix against the bytes left in the
+	// stream; the prefix comes from the peer and must not size an allocation
+	// by itself.
+	r.Data = append(r.Data[:0], d.ReadBytes()...)
 
 	types.DecodeSlice(d, &r.MerkleProof)
 }
